@@ -341,6 +341,13 @@ def unloadable_then_good(res):
             f.write("from nada_dsl import *\ndef nada_main(:\n")
         os.makedirs(os.path.join(tmp, "adir.py"), exist_ok=True)
         bads = [noext, os.path.join(tmp, "missing.py"), os.path.join(tmp, "adir.py"), broken]
+        for name, text in (("boom.py", "from nada_dsl import *\nraise RuntimeError('boom')\n"),
+                           ("needs.py", "from nada_dsl import *\nimport nv_no_such_helper_module\n"),
+                           ("exits.py", "from nada_dsl import *\nraise SystemExit(3)\n"),
+                           ("interrupted.py", "from nada_dsl import *\nraise KeyboardInterrupt()\n")):
+            with open(os.path.join(tmp, name), "w", encoding="utf-8") as f:
+                f.write(text)
+            bads.append(os.path.join(tmp, name))
         for timers in (False, True):
             for bad in bads:
                 env = dict(os.environ, PYTHONPATH=core.REPO + os.pathsep + os.path.join(core.VERIF, "harness"), PYTHONDONTWRITEBYTECODE="1")
